@@ -62,6 +62,11 @@ class Static(object):
                 cid = self.comp_order[t["comp"]]
                 self.comp_tasks[cid].append(t["id"])
                 self.task_comp[t["id"]] = cid
+            if t.get("also_comp") is not None and t.get("comp") is not None and t["also_comp"] != t["comp"]:
+                # the task was appended to a second component afterwards: both list it, the task names the later one
+                cid = self.comp_order[t["also_comp"]]
+                self.comp_tasks[cid].append(t["id"])
+                self.task_comp[t["id"]] = cid
 
     # ---- task facts
     def name(self, tid):
